@@ -134,6 +134,76 @@ func plainAttrs(r *rand.Rand, tag string) map[string]any {
 	return m
 }
 
+// attributes with a special merge rule (mergeSpecials), in the spellings a compose file may use, plus a few shapes the
+// mergers were not written for (they run before any schema validation)
+func ruleAttrs(r *rand.Rand, tag string) map[string]any {
+	m := map[string]any{}
+	pick := func(p float64) bool { return r.Float64() < p }
+	alt := func(vs ...any) any { return vs[r.Intn(len(vs))] }
+	if pick(0.35) {
+		m["environment"] = alt(map[string]any{"K_" + tag: "v", "SHARED": tag, "N": 1, "E": nil}, []any{"K_" + tag + "=v", "SHARED=" + tag, "BARE"})
+	}
+	if pick(0.3) {
+		m["labels"] = alt(map[string]any{"l." + tag: "v", "shared": tag}, []any{"l." + tag + "=v", "shared=" + tag})
+	}
+	if pick(0.25) {
+		m["command"] = alt([]any{"run", tag}, "run "+tag, nil)
+	}
+	if pick(0.2) {
+		m["entrypoint"] = alt([]any{"/ep", tag}, "/ep "+tag)
+	}
+	if pick(0.25) {
+		m["build"] = alt("./ctx-"+tag, map[string]any{"context": "./ctx-" + tag, "args": alt(map[string]any{"A": tag}, []any{"A=" + tag})},
+			map[string]any{"dockerfile": "Dockerfile." + tag, "labels": []any{"bl=" + tag}, "extra_hosts": alt([]any{"h:1.1.1.1"}, map[string]any{"h": "1.1.1.1"})})
+	}
+	if pick(0.25) {
+		m["depends_on"] = alt([]any{"a", "b"}, map[string]any{"a": map[string]any{"condition": "service_healthy"}}, []any{"c"})
+	}
+	if pick(0.25) {
+		m["networks"] = alt([]any{"n1"}, map[string]any{"n1": map[string]any{"aliases": []any{"al-" + tag}}, "n2": nil}, []any{"n2", "n3"})
+	}
+	if pick(0.25) {
+		m["logging"] = alt(map[string]any{"driver": "json-file", "options": map[string]any{"o-" + tag: "v"}}, map[string]any{"driver": "syslog"},
+			map[string]any{"options": map[string]any{"max-size": tag}})
+	}
+	if pick(0.2) {
+		m["ulimits"] = alt(map[string]any{"nofile": 100}, map[string]any{"nofile": map[string]any{"soft": 1, "hard": 2}, "nproc": 5})
+	}
+	if pick(0.2) {
+		m["extra_hosts"] = alt([]any{"h-" + tag + ":10.0.0.1", "shared:10.0.0.2"}, map[string]any{"h-" + tag: "10.0.0.1", "shared": "10.0.0.2"}, "one:10.0.0.3")
+	}
+	if pick(0.2) {
+		m["dns"] = alt("10.0.0.1", []any{"10.0.0.2", "10.0.0.1"})
+	}
+	if pick(0.2) {
+		m["env_file"] = alt("./e-"+tag+".env", []any{"./e-" + tag + ".env", map[string]any{"path": "./f.env", "required": false}})
+	}
+	if pick(0.15) {
+		m["sysctls"] = alt(map[string]any{"net.s": 1}, []any{"net.t=" + tag})
+	}
+	if pick(0.15) {
+		m["tmpfs"] = alt("/t-"+tag, []any{"/t-" + tag, "/u"})
+	}
+	if pick(0.15) {
+		m["healthcheck"] = map[string]any{"test": alt([]any{"CMD", tag}, "exit 0"), "retries": r.Intn(4)}
+	}
+	if pick(0.15) {
+		m["deploy"] = map[string]any{"labels": alt(map[string]any{"dl": tag}, []any{"dl=" + tag}), "replicas": r.Intn(3)}
+	}
+	if pick(0.1) {
+		m["annotations"] = alt(map[string]any{"an": tag}, []any{"an=" + tag})
+	}
+	if pick(0.1) {
+		m["ports"] = alt([]any{"80:80"}, []any{map[string]any{"target": 80, "published": "8080"}})
+	}
+	if pick(0.08) {
+		// shapes the special mergers assert away (panics / errors of the merge step; C04 and C01 own those)
+		k := []string{"logging", "depends_on", "networks", "environment", "extra_hosts", "ulimits", "build", "labels"}[r.Intn(8)]
+		m[k] = alt("scalar-"+tag, 3, []any{1, map[string]any{"k": "v"}}, true, map[string]any{"k": []any{1}})
+	}
+	return m
+}
+
 func addApply(ctx *core.Ctx, kind string, nodes []c05Node, raw map[string]string, order bool) {
 	t, main := buildTree(nodes)
 	for p, s := range raw {
@@ -194,6 +264,11 @@ func runC05(ctx *core.Ctx) {
 					continue
 				}
 				n := c05Node{File: f, Name: nm, Attrs: plainAttrs(r, fmt.Sprintf("%s-%s", filepath.Base(f), nm))}
+				if i%2 == 1 {
+					for k, v := range ruleAttrs(r, fmt.Sprintf("%s-%s", filepath.Base(f), nm)) {
+						n.Attrs[k] = v
+					}
+				}
 				switch x := r.Float64(); {
 				case x < 0.3:
 				case x < 0.55:
@@ -207,8 +282,15 @@ func runC05(ctx *core.Ctx) {
 				nodes = append(nodes, n)
 			}
 		}
-		addApply(ctx, fmt.Sprintf("random-%dfiles", nf), nodes, nil, i%4 == 0)
+		kind := fmt.Sprintf("random-%dfiles", nf)
+		if i%2 == 1 {
+			kind += "+rules"
+		}
+		addApply(ctx, kind, nodes, nil, i%4 == 0)
 	}
+
+	// ------------------------------------------------------------ 2b. the file-system parameter: anchoring of a base file
+	genBase(ctx)
 
 	// ------------------------------------------------------------ 3. malformed stream
 	genMalformed(ctx)
@@ -281,6 +363,18 @@ func genTrackerAndExtend(ctx *core.Ctx) {
 		}
 		ctx.Count("extend-random")
 		ctx.Add("c05.extend", c05ExtendArgs{Base: core.EncodeVal(mk()), Over: core.EncodeVal(mk())})
+	}
+	// ExtendService with the special rules: service-shaped trees on both sides
+	for i := 0; i < ctx.Pick(2500, 100000); i++ {
+		mk := func(tag string) map[string]any {
+			m := plainAttrs(ctx.Rng, tag)
+			for k, v := range ruleAttrs(ctx.Rng, tag) {
+				m[k] = v
+			}
+			return m
+		}
+		ctx.Count("extend-rules")
+		ctx.Add("c05.extend", c05ExtendArgs{Base: core.EncodeVal(mk("b")), Over: core.EncodeVal(mk("o"))})
 	}
 }
 
